@@ -144,6 +144,9 @@ def run_gen(sdir, spec, tier, seed):
     return path, len(seen), r
 
 
+STATS = {}
+
+
 def validate_trace(sdir, module, cfg, trace, props, nparts, block_ev, extra_consts=None, timeout=3000, heap="3g"):
     files, nblocks = split_trace(trace, sdir, nparts, block_ev)
     fails, summaries, outs = [], [], []
@@ -169,10 +172,111 @@ def validate_trace(sdir, module, cfg, trace, props, nparts, block_ev, extra_cons
             m = re.match(r'^<<"MONFAIL", (".*")>>$', ln.strip())
             if m:
                 fails.append(json.loads(json.loads(m.group(1))))
+            m = re.match(r'^<<"MONSTAT", "parser", (\d+)>>$', ln.strip())
+            if m:
+                STATS["parser_attempts"] = STATS.get("parser_attempts", 0) + int(m.group(1))
     return fails, nblocks, states, trans, results
 
 
 # ----------------------------------------------------------------------------------------------
+# implementation-level trace validation of the concurrency model (spec/Trace_Conn.tla)
+# ----------------------------------------------------------------------------------------------
+READER_HOOKS = {"reader.read", "reader.handoff", "reader.readError", "reader.handedOff", "reader.sawCtx", "reader.sawDone",
+                "reader.published", "reader.closeEvents", "reader.exit"}
+CONN_MAX_ATTEMPTS = 3
+
+
+def conn_trace(lines):
+    """Project the recorded trace onto Trace_Conn's vocabulary. Only scenarios whose attempts were all hook-traced,
+    all returned, and number at most CONN_MAX_ATTEMPTS are kept. Returns (list of scenario blocks, each a list of lines)."""
+    blocks, cur, ok = [], None, False
+    for o in lines:
+        ev = o.get("ev")
+        if ev == "scenario":
+            atts = o.get("attempts", [])
+            ok = bool(atts) and len(atts) <= CONN_MAX_ATTEMPTS and all(a.get("hookTrace") for a in atts) and not o.get("resume")
+            cur = [{"e": "scenario", "id": o.get("id"), "fam": o.get("fam", "")}]
+            continue
+        if cur is None:
+            continue
+        if ev == "end":
+            if ok and any(x["e"] == "hook" for x in cur):
+                cur.append({"e": "end", "id": o.get("id")})
+                blocks.append(cur)
+            cur = None
+            continue
+        if not ok:
+            continue
+        a = o.get("att", 0)
+        if isinstance(a, int) and a >= 1000:
+            ok = False
+            continue
+        if ev == "attempt":
+            pl = o.get("plan", {})
+            fk = (pl.get("fault") or {}).get("kind", "none")
+            m = {"err": "ERR", "eof": "EOF", "close": "transport", "reset": "transport", "short": "transport", "outofseq": "transport"}.get(fk)
+            if m is None:
+                m = "EOF" if pl.get("end") == "eof" else "none"
+            if pl.get("connfault", "none") != "none" or pl.get("dead"):
+                m = "transport"
+            cur.append({"e": "attempt", "a": a, "m": m})
+        elif ev == "hook":
+            cur.append({"e": "hook", "a": a, "p": o["p"]})
+        elif ev == "cancel":
+            cur.append({"e": "cancel", "a": a})
+        elif ev == "streamReturn":
+            if not o.get("returned"):
+                ok = False
+            else:
+                cur.append({"e": "ret", "a": a, "res": "nil" if o["res"]["nil"] else "err"})
+        elif ev == "errorReturn":
+            if not o.get("returned"):
+                ok = False
+            else:
+                cur.append({"e": "error", "a": a, "call": o.get("call", 1), "res": "nil" if o["res"]["nil"] else "err"})
+        elif ev in ("abandoned", "panic"):
+            ok = False
+    return blocks
+
+
+def validate_conn(sdir, lines, tag=""):
+    """Validate the hook-level trace against MC_Conn (Trace_Conn.tla). A scenario the specification cannot match is
+    reported (it decides no property) and validation goes on with the scenarios after it.
+    Returns dict(scenarios, lines, rejected=[{id, fam, line, at}], states)."""
+    blocks = conn_trace(lines)
+    res = {"scenarios": len(blocks), "lines": sum(len(b) for b in blocks), "rejected": [], "states": 0}
+    rounds = 0
+    while blocks and rounds < 8:
+        rounds += 1
+        path = os.path.join(sdir, "conn%s-%d.ndjson" % (tag, rounds))
+        flat, owner = [], []
+        for bi, b in enumerate(blocks):
+            for x in b:
+                flat.append(x)
+                owner.append(bi)
+        with open(path, "w") as fh:
+            for x in flat:
+                fh.write(json.dumps(x) + "\n")
+        r = vf.tlc(sdir, "Trace_Conn", "Trace_Conn.cfg", workers=1, timeout=1800, heap="3g", consts={"TraceFile": '"%s"' % path},
+                   tag="%s-r%d" % (tag, rounds), jvm=["-Dtlc2.tool.impl.Tool.cdot=true"])
+        m = re.search(r'<<"CONNTRACE", (\d+), (\d+)>>', r["out"])
+        res["states"] += r.get("distinct", 0)
+        if not m:
+            tail = "\n".join(l for l in r["out"].splitlines() if not l.startswith(("Parsing", "Semantic", "Linting")))[-2500:]
+            raise vf.NoVerdict("Trace_Conn validation did not finish:\n" + tail)
+        reached, total = int(m.group(1)), int(m.group(2))
+        if reached >= total:
+            break
+        # line `reached + 1` (1-based) could not be matched: its scenario is rejected
+        bi = owner[reached] if reached < len(owner) else len(blocks) - 1
+        b = blocks[bi]
+        first = owner.index(bi)
+        res["rejected"].append({"id": b[0].get("id"), "fam": b[0].get("fam"), "line": flat[reached], "at": reached - first,
+                                "before": flat[max(first, reached - 6):reached]})
+        blocks = blocks[bi + 1:]
+    return res
+
+
 # the generic flow
 # ----------------------------------------------------------------------------------------------
 def parse_race_logs(sdir, prefix):
@@ -287,7 +391,16 @@ def run_part(part, P, pid, tier, seed, sdir, only, binaries, gen_path, idx):
     blocks = [l for l in lines if l.get("ev") in block_ev]
     for f in fails:
         f["part"] = idx
-    return dict(fails=fails, blocks=blocks, nlines=len(lines), vstates=vstates, vtrans=vtrans, nblocks=nblocks, races=len(races))
+    conn = None
+    if part.get("conn"):
+        # implementation-level validation of the concurrency model against the hook traces of this run (decides no property)
+        conn = validate_conn(sdir, lines, tag="-p%d" % idx)
+        vstates += conn["states"]
+        for rj in conn["rejected"]:
+            fails.append({"mon": "DRIFT.trace-conn", "id": rj["id"], "fam": rj["fam"], "part": idx,
+                          "info": {"what": "the hook-level trace of the scenario is not a behaviour of MC_Conn (Trace_Conn.tla)",
+                                   "line": rj["line"], "at": rj["at"], "before": rj["before"]}})
+    return dict(fails=fails, blocks=blocks, nlines=len(lines), vstates=vstates, vtrans=vtrans, nblocks=nblocks, races=len(races), conn=conn)
 
 
 def run(pid, tier, seed, sdir, replay, t0):
@@ -333,7 +446,9 @@ def run(pid, tier, seed, sdir, replay, t0):
     fails = [f for f in fails if not str(f.get("mon", "")).startswith("DRIFT.")]
     for w in sorted({f["info"]["what"] for f in drift}):
         n = sum(1 for f in drift if f["info"]["what"] == w)
-        print("MODEL-DRIFT property=%s (no verdict depends on it) %s (%d attempts)" % (pid, w, n))
+        ex = next(f for f in drift if f["info"]["what"] == w)
+        print("MODEL-DRIFT property=%s (no verdict depends on it) %s (%d attempts; e.g. scenario %s part %s: %s)" % (
+            pid, w, n, ex.get("id"), ex.get("part", 0), json.dumps({k: v for k, v in ex["info"].items() if k != "what"})[:600]))
     viol, knownhits = [], {}
     for f in fails:
         k = match_known(pid, f, known)
@@ -385,6 +500,10 @@ def run(pid, tier, seed, sdir, replay, t0):
         "monitor_failures": len(fails), "known_finding_instances": sum(n for _, n in knownhits.values()),
         "race_reports": sum(r["races"] for r in results),
         "model_drift_failures": len(drift),
+        "conn_trace_scenarios_validated_against_MC_Conn": sum((r.get("conn") or {}).get("scenarios", 0) for r in results),
+        "attempts_replayed_against_Streamer_Step": STATS.get("parser_attempts", 0),
+        "conn_trace_lines": sum((r.get("conn") or {}).get("lines", 0) for r in results),
+        "conn_trace_rejected": sum(len((r.get("conn") or {}).get("rejected", [])) for r in results),
         "hook_traced_attempts": sum(1 for b in blocks for a in b.get("attempts", []) if isinstance(a, dict) and a.get("hookTrace")),
         "model_checking": mc_notes,
         "checker_cmd": "java -cp tla2tools.jar tlc2.TLC -config <cfg> {%s}.tla" % ", ".join(
@@ -436,7 +555,7 @@ REGISTRY = {
                 rule="scenario = unit sequence over C02's 13-unit alphabet (exhaustive from TLC up to the tier's bound, random beyond), "
                      "all casings of begin/commit/rollback drawn per scenario; distinct by content; non-trivial = contains a committing unit"),
     "C04": dict(parts=[dict(mode="c04", trace_module="Trace_Stream", trace_cfg="Trace_Stream.cfg", props=["C04"]),
-                       dict(mode="c04g", trace_module="Trace_Stream", trace_cfg="Trace_Stream.cfg", props=["C04"])],
+                       dict(mode="c04g", conn=True, trace_module="Trace_Stream", trace_cfg="Trace_Stream.cfg", props=["C04"])],
                 mc=[MC_SESSION], nontrivial=has_tx, assumptions=STREAM_ASSUME,
                 gen=dict(module="Gen_Session", cfg={"quick": "Gen_Session.quick.cfg",
                                                     "thorough": ["Gen_Session.thorough.cfg", "Gen_Session.thorough2.cfg"]}),
@@ -446,12 +565,12 @@ REGISTRY = {
                      "Part 2: EVERY session of the TLC model MC_Session within the bound (Gen_Session: logs of <= 2 units x one fault action at "
                      "every point + clean attempt in quick; <= 3 units, and <= 2 units with two failed attempts, in thorough) replayed on the "
                      "real Streamer with hook tracing; each attempt's hook trace is validated packet by packet against Streamer!Step"),
-    "C05": dict(parts=[dict(mode="c05", race=True, trace_module="Trace_Stream", trace_cfg="Trace_Stream.cfg", props=["C05"])],
+    "C05": dict(parts=[dict(mode="c05", race=True, conn=True, trace_module="Trace_Stream", trace_cfg="Trace_Stream.cfg", props=["C05"])],
                 mc=[MC_CONN, MC_CONN_SPEC], nontrivial=has_tx, assumptions=STREAM_ASSUME + [
                     "the data-race clause is decided by the Go race detector on the replayed schedules (the Go memory model is not modelled in TLA+)"],
                 rule="scenario = history x stop cause x stop point x reader state (lock-step: waiting for the network / burst: holding an "
                      "event) x handler fast / blocked-at-stop, followed by a clean attempt; run under go test -race; distinct by content"),
-    "C06": dict(mode="c06", mc=[MC_CONN, MC_CONN_SPEC], trace_module="Trace_Stream", trace_cfg="Trace_Stream.cfg", props=["C06"],
+    "C06": dict(mode="c06", conn=True, mc=[MC_CONN, MC_CONN_SPEC], trace_module="Trace_Stream", trace_cfg="Trace_Stream.cfg", props=["C06"],
                 nontrivial=has_tx, assumptions=STREAM_ASSUME,
                 rule="same schedule classes as C05 with arbitrary master error codes/messages; distinct by content"),
     "C07": dict(mode="c07", mc=[MC_SESSION], trace_module="Trace_Stream", trace_cfg="Trace_Stream.cfg", props=["C07"],
